@@ -127,28 +127,45 @@ def gen_select_tables():
         names = pred(fn)
         out.append(f"(* ResolvedType::{fn} *)\nDefinition {coq} (t : rtype) : bool :=\n  match t with " +
                    " | ".join("R" + n for n in names) + " => true | _ => false end.\n\n")
-    tables = ["select_typed_int_opcode", "select_typed_float_opcode", "select_guarded_int_opcode",
-              "select_guarded_float_opcode", "select_generic_opcode"]
+    roles = ["select_typed_int_opcode", "select_typed_float_opcode", "select_guarded_int_opcode",
+             "select_guarded_float_opcode", "select_generic_opcode"]
+    # every `fn NAME(<x>: BinaryOp) -> OpCode` is an operator -> opcode table, whatever it is called
+    found = re.findall(r"fn\s+([A-Za-z_0-9]+)\s*\(\s*[A-Za-z_0-9]+\s*:\s*BinaryOp\s*\)\s*->\s*OpCode", sel)
+    if all(r in found for r in roles):
+        role_fn = {r: r for r in roles}
+    else:
+        # renamed helpers: recognise the roles by the order in which select_opcode calls them
+        # (guarded int, typed int, guarded float, typed float, [guarded float,] generic)
+        body = _fn_body(sel, "select_opcode")
+        calls = []
+        for c in re.findall(r"\b([A-Za-z_0-9]+)\s*\(\s*op\s*\)", body):
+            if c in found and c not in calls:
+                calls.append(c)
+        if len(calls) != 5 or len(found) != 5:
+            raise extract.ExtractError(f"opcode_select.rs: cannot identify the five operator tables (tables {found}, called {calls})")
+        role_fn = dict(zip(["select_guarded_int_opcode", "select_typed_int_opcode", "select_guarded_float_opcode",
+                            "select_typed_float_opcode", "select_generic_opcode"], calls))
     from_opc = extract.strip_comments(extract.rd("bytecode/src/bytecode/opcode.rs"))
-    for fn in tables:
-        body = _fn_body(sel, fn)
-        m = re.search(r"match\s+op\s*\{(.*)\}", body, flags=re.S)
+    arm_re = r"((?:BinaryOp::[A-Za-z0-9]+\s*\|?\s*)+)=>\s*OpCode::([A-Za-z0-9]+)\s*,?"
+    for fn in roles:
+        body = _fn_body(sel, role_fn[fn])
+        m = re.search(r"match\s+[A-Za-z_0-9]+\s*\{(.*)\}", body, flags=re.S)
         if not m:
-            raise extract.ExtractError(f"{fn}: expected `match op {{ ... }}`")
+            raise extract.ExtractError(f"{role_fn[fn]}: expected `match op {{ ... }}`")
         table = {}
-        for arm in re.finditer(r"((?:BinaryOp::[A-Za-z0-9]+\s*\|?\s*)+)=>\s*OpCode::([A-Za-z0-9]+)\s*,?", m.group(1)):
+        for arm in re.finditer(arm_re, m.group(1)):
             for o in re.findall(r"BinaryOp::([A-Za-z0-9]+)", arm.group(1)):
                 if o in table:
-                    raise extract.ExtractError(f"{fn}: operator {o} listed twice")
+                    raise extract.ExtractError(f"{role_fn[fn]}: operator {o} listed twice")
                 table[o] = arm.group(2)
-        leftover = re.sub(r"((?:BinaryOp::[A-Za-z0-9]+\s*\|?\s*)+)=>\s*OpCode::([A-Za-z0-9]+)\s*,?", "", m.group(1)).strip()
+        leftover = re.sub(arm_re, "", m.group(1)).strip()
         if leftover or sorted(table) != sorted(ops):
-            raise extract.ExtractError(f"{fn}: arms not understood or not exhaustive (leftover {leftover[:60]!r}, "
+            raise extract.ExtractError(f"{role_fn[fn]}: arms not understood or not exhaustive (leftover {leftover[:60]!r}, "
                                        f"missing {sorted(set(ops) - set(table))})")
         for v in table.values():
             if not re.search(r"\b%s\b" % v, from_opc):
-                raise extract.ExtractError(f"{fn}: unknown OpCode::{v}")
-        out.append(f"Definition {fn} (op : binop) : opcode :=\n  match op with\n" +
+                raise extract.ExtractError(f"{role_fn[fn]}: unknown OpCode::{v}")
+        out.append(f"(* fn {role_fn[fn]} *)\nDefinition {fn} (op : binop) : opcode :=\n  match op with\n" +
                    "".join(f"  | Op{o} => O_{table[o]}\n" for o in ops) + "  end.\n\n")
     return extract.write_if_changed("OpcodeSelectTables.v", "".join(out))
 
